@@ -22,6 +22,7 @@ def run(tier, seed, verdict):
     st = res.stats
     need = ["event_v1_outcome_woken_by_later_set", "event_v2_outcome_woken_by_later_set",
             "event_v2_outcome_cancelled_done", "event_v2_outcome_stop_lost_race_value",
+            "event_v2_tight_cancel_won", "event_v2_tight_set_won",
             "event_v1_rounds_with_concurrent_reset", "autoreset_values", "autoreset_cancelled_rounds",
             "call_cancelled", "accept_cancelled", "cancel_lost_race", "plain_rendezvous", "try_call_served",
             "try_accept_served", "idle_try_checked"]
@@ -37,7 +38,9 @@ def run(tier, seed, verdict):
         "rule": "each evaluation is one short concurrent history on a fresh event: 1-3 waiters (v2: a third are "
                 "cancelled at a random time), 1-2 setters, optionally a resetting thread; then quiescent checks "
                 "(all waiters complete after a set, none completes without one, reset only affects later waits) and a "
-                "final set(); auto-reset: producer set()/set_done() vs a consuming stream, optionally cancelled; async_pass: one "
+                "final set(); v2 also: 20 tight rounds per history - 2-4 waiters queued first, then one thread cancels a chosen "
+                "waiter (the oldest half of the time) while another calls set(), released together with 0-400 ns of jitter, every "
+                "waiter must complete exactly once (both race outcomes must have been observed); auto-reset: producer set()/set_done() vs a consuming stream, optionally cancelled; async_pass: one "
                 "round per fresh pass - async_call vs async_accept started from two threads in either order or together, a "
                 "stop request on one side at a random time, the survivor served by try_call/try_accept, or a parked side served "
                 "by try_*; payload ids unique; checked: value iff delivered, payload exact, cancelled side leaves the other waiting "
